@@ -6,6 +6,7 @@ package main
 // MVCC-map oracle written here.
 
 import (
+	"encoding/binary"
 	"bytes"
 	"fmt"
 	"math"
@@ -158,6 +159,9 @@ type mvSess struct {
 	// (only observable in managed mode, where a transaction may read below an earlier commit) knows
 	// nothing about commits made before it
 	reopenSeq int
+	// banned namespaces (C28): Options.NamespaceOffset (-1 = off) and the namespaces banned so far
+	nsoff  int
+	banned map[uint64]bool
 }
 
 func (s *mvSess) close() {
@@ -222,6 +226,8 @@ func (s *mvSess) open(kv map[string]string) (string, error) {
 	memsz := kvInt(kv, "memsz", 1<<20)
 	vlogpct := kvInt(kv, "vlogpct", 0) // percent; > 0 enables dynamic value thresholds
 	vmax := kvInt(kv, "vmax", 0)      // > 0: ValueLogMaxEntries (the value log rotates after that many entries)
+	s.nsoff = kvInt(kv, "nsoff", -1)
+	s.banned = map[uint64]bool{}
 	s.dir = ""
 	var opt badger.Options
 	if s.inmem {
@@ -251,6 +257,9 @@ func (s *mvSess) open(kv map[string]string) (string, error) {
 	if vmax > 0 {
 		opt = opt.WithValueLogMaxEntries(uint32(vmax))
 	}
+	if s.nsoff >= 0 {
+		opt = opt.WithNamespaceOffset(s.nsoff)
+	}
 	var err error
 	s.opt = opt
 	if s.managed {
@@ -269,8 +278,12 @@ func (s *mvSess) open(kv map[string]string) (string, error) {
 	s.droppedAll = false
 	s.l0l0Seen = false
 	mc, ms, _ := badger.VerifLimits(s.db)
-	return fmt.Sprintf("reset managed=%d keep=%d thr=%d inmem=%d levels=%d detect=%d tblsz=%d basesz=%d comp=%d memsz=%d vmax=%d now=%d maxcount=%d maxsize=%d vlogsz=%d",
-		b2i(s.managed), s.keep, s.thr, b2i(s.inmem), s.levels, b2i(detect), tblsz, basesz, comp, memsz, vmax, s.now, mc, ms, 1<<20), nil
+	ns := ""
+	if s.nsoff >= 0 {
+		ns = fmt.Sprintf(" nsoff=%d", s.nsoff)
+	}
+	return fmt.Sprintf("reset managed=%d keep=%d thr=%d inmem=%d levels=%d detect=%d tblsz=%d basesz=%d comp=%d memsz=%d vmax=%d now=%d maxcount=%d maxsize=%d vlogsz=%d%s",
+		b2i(s.managed), s.keep, s.thr, b2i(s.inmem), s.levels, b2i(detect), tblsz, basesz, comp, memsz, vmax, s.now, mc, ms, 1<<20, ns), nil
 }
 
 func b2i(b bool) int {
@@ -444,6 +457,25 @@ func execMvcc(intents []string, st *Stats) (final, outs, oracle []string) {
 			}
 			next := badger.VerifNextTxnTs(s.db)
 			emit(line, fmt.Sprintf("ok next=%d", next))
+			if s.nsoff >= 0 {
+				// the banned set is rebuilt from the stored markers; DropAll removes the markers but
+				// not the in-memory set, so a restart after DropAll forgets the bans (finding F31)
+				act := map[uint64]bool{}
+				for _, ns := range s.db.BannedNamespaces() {
+					act[ns] = true
+				}
+				for ns := range s.banned {
+					if !act[ns] {
+						fail("F31:ban-forgotten-after-dropall-reopen", fmt.Sprintf("namespace %d was banned before Close and is not banned after Open", ns))
+					}
+				}
+				for ns := range act {
+					if !s.banned[ns] {
+						fail("C28-ban-appeared", fmt.Sprintf("namespace %d is banned after Open but was never banned", ns))
+					}
+				}
+				s.banned = act
+			}
 			if !s.managed {
 				// C11: the next timestamp lies above every stored version. Versions of the history
 				// at or above it are therefore no longer stored (dropped by a compaction that the
@@ -482,6 +514,33 @@ func execMvcc(intents []string, st *Stats) (final, outs, oracle []string) {
 			emit("dump", s.dump())
 			s.judgeStructure(fail)
 			s.judgeStable("close+open", pre, fail)
+		case "ban":
+			// ban <ns>: DB.BanNamespace. The marker key !badger!banned<ns> is written at version 1
+			// through the write channel like any entry (it is part of the stored history).
+			ns := atou(w[1])
+			err := s.db.BanNamespace(ns)
+			badger.VerifWaitFlushed(s.db)
+			s.emitEventsX(emit, fail, "", true)
+			switch {
+			case err == nil:
+				emit(line, "ok")
+				if s.nsoff < 0 {
+					fail("C28-ban-accepted-without-namespaces", "BanNamespace succeeded although NamespaceOffset < 0")
+				}
+				if !s.banned[ns] {
+					mk := append([]byte("!badger!banned"), make([]byte, 8)...)
+					binary.BigEndian.PutUint64(mk[len(mk)-8:], ns)
+					s.spec.add(mk, specVer{ver: 1})
+				}
+				s.banned[ns] = true
+			case err == badger.ErrNamespaceMode:
+				emit(line, "err:nsmode")
+				if s.nsoff >= 0 {
+					fail("C28-ban-refused", "BanNamespace answered ErrNamespaceMode although NamespaceOffset >= 0")
+				}
+			default:
+				emit(line, "err:"+strings.ReplaceAll(err.Error(), " ", "_"))
+			}
 		case "dump":
 			continue // dumps are emitted automatically after structural ops
 		case "begin":
@@ -552,10 +611,17 @@ func execMvcc(intents []string, st *Stats) (final, outs, oracle []string) {
 				want = "err:valtoobig"
 			case s.inmem && len(val) > s.thr:
 				want = "err:valtoobig"
+			case s.isBanned(key):
+				want = "err:banned"
 			}
 			emit(line, k)
 			if k != want && !(want == "ok" && k == "err:txntoobig") {
-				if s.inmem && s.droppedAll && want == "err:valtoobig" && k == "ok" {
+				if s.inmem && s.droppedAll && want == "err:valtoobig" && k == "err:banned" && s.isBanned(key) {
+					// F18 (the size limit is gone after DropAll), then the banned check answers
+					fail("F18:inmem-threshold-after-dropall", fmt.Sprintf("in-memory DB after DropAll: value of %d bytes > ValueThreshold %d passes the size check (before DropAll it is rejected)", len(val), s.thr))
+				} else if want == "err:banned" || k == "err:banned" {
+					fail("C28-banned-set", fmt.Sprintf("write of key %s: got %s want %s", hx(key), k, want))
+				} else if s.inmem && s.droppedAll && want == "err:valtoobig" && k == "ok" {
 					fail("F18:inmem-threshold-after-dropall", fmt.Sprintf("in-memory DB after DropAll: value of %d bytes > ValueThreshold %d accepted (before DropAll it is rejected)", len(val), s.thr))
 				} else {
 					fail("C28-validation", fmt.Sprintf("got %s want %s", k, want))
@@ -583,8 +649,8 @@ func execMvcc(intents []string, st *Stats) (final, outs, oracle []string) {
 			}
 			emit(line, out)
 			if !tx.done && len(key) > 0 {
-				if _, own := tx.pending[string(key)]; !own {
-					tx.reads[string(key)] = true
+				if _, own := tx.pending[string(key)]; !own && out != "err:banned" {
+					tx.reads[string(key)] = true // (ErrBannedKey is answered before the read is recorded)
 				}
 				s.judgeGet(tx, key, out, fail)
 			}
@@ -753,8 +819,27 @@ func execMvcc(intents []string, st *Stats) (final, outs, oracle []string) {
 
 // judgeGet: C01/C04/C06/C33/C36 — a Get equals the newest committed write at or below the
 // read timestamp (own pending writes layered on top), absent when deleted or expired.
+// isBanned: the key carries a namespace (a complete 8-byte field at NamespaceOffset followed by at
+// least one more byte, as DB.isBanned has it) and that namespace was banned in this session.
+func (s *mvSess) isBanned(key []byte) bool {
+	if s.nsoff < 0 || len(key) <= s.nsoff+8 {
+		return false
+	}
+	return s.banned[binary.BigEndian.Uint64(key[s.nsoff:s.nsoff+8])]
+}
+
 func (s *mvSess) judgeGet(tx *mvTxn, key []byte, out string, fail func(string, string)) {
 	var want string
+	if s.isBanned(key) {
+		if out != "err:banned" {
+			fail("C28-banned-get", fmt.Sprintf("Get of key %s in a banned namespace answers %q", hx(key), out))
+		}
+		return
+	}
+	if out == "err:banned" {
+		fail("C28-banned-get", fmt.Sprintf("Get of key %s, which is in no banned namespace, answers err:banned", hx(key)))
+		return
+	}
 	if pv, ok := tx.pending[string(key)]; ok && tx.update {
 		if pv.dead(s.now) {
 			want = "notfound"
@@ -1192,6 +1277,13 @@ func (s *mvSess) dropPrefix(ws []string, emit func(string, string), fail func(st
 			continue // DropPrefix's own read-only View may advance the discard watermark
 		}
 		now := s.readAt([]byte(r.key), r.ts)
+		if has(r.key) && s.isBanned([]byte(r.key)) {
+			// a key of a banned namespace is visible to nobody (Get answers ErrBannedKey, iterators
+			// hide it), DropPrefix's own visibility filter included: a prefix under which only such
+			// keys live is filtered out and their data stays in the tree (not a violation of "no key
+			// with the prefix is visible"; recorded in DESIGN §8). The history follows the tree.
+			continue
+		}
 		if has(r.key) {
 			// "no key with the prefix is visible": judged for snapshots taken from now on (the
 			// newest timestamp). A key whose newest version is already a delete/expired marker is
@@ -1211,6 +1303,9 @@ func (s *mvSess) dropPrefix(ws []string, emit func(string, string), fail func(st
 	}
 	for k := range s.spec.hist {
 		if has(k) {
+			if s.isBanned([]byte(k)) && s.readAt([]byte(k), math.MaxUint64) != "absent" {
+				continue // its prefix was filtered out (see above): still stored
+			}
 			delete(s.spec.hist, k)
 			s.spec.dropFloor[k] = s.spec.maxTs
 		}
@@ -1475,6 +1570,10 @@ func (s *mvSess) specScan(tx *mvTxn, opt badger.IteratorOptions, seek string) []
 		if bytes.HasPrefix([]byte(k), []byte("!badger!")) && !opt.InternalAccess {
 			continue
 		}
+		// keys of banned namespaces are hidden from every iterator (internal keys are exempt)
+		if !bytes.HasPrefix([]byte(k), []byte("!badger!")) && s.isBanned([]byte(k)) {
+			continue
+		}
 		var v specVer
 		ok := false
 		ver := uint64(0)
@@ -1577,15 +1676,36 @@ func genMvccSession(rng *rand.Rand, st *Stats) []string {
 	if !inmem && rng.Intn(3) == 0 {
 		vmaxG = pick(rng, 3, 5, 8) // frequent value-log rotations (also in the middle of a write batch)
 	}
-	ops = append(ops, fmt.Sprintf("reset managed=%d keep=%d thr=%d inmem=%d levels=%d detect=1 tblsz=%d basesz=%d comp=%d memsz=%d vmax=%d",
-		b2i(managed), keep, thr, b2i(inmem), levels, tblsz, basesz, comp, memsz, vmaxG))
+	// banned namespaces (C28): one session in seven runs with NamespaceOffset >= 0 and keys that carry
+	// a namespace (8 bytes at the offset, big endian) followed by 0..2 more bytes, or are shorter
+	nsoff := -1
+	if rng.Intn(7) == 0 {
+		nsoff = pick(rng, 0, 1, 2)
+	}
+	if params["nsoff"] != "" {
+		nsoff, _ = strconv.Atoi(params["nsoff"])
+	}
+	nsArg := ""
+	if nsoff >= 0 {
+		nsArg = fmt.Sprintf(" nsoff=%d", nsoff)
+		st.Inc("session:namespaces")
+	}
+	ops = append(ops, fmt.Sprintf("reset managed=%d keep=%d thr=%d inmem=%d levels=%d detect=1 tblsz=%d basesz=%d comp=%d memsz=%d vmax=%d%s",
+		b2i(managed), keep, thr, b2i(inmem), levels, tblsz, basesz, comp, memsz, vmaxG, nsArg))
 	st.Inc(fmt.Sprintf("session:managed=%v,inmem=%v,keep=%d", managed, inmem, keep))
 	nkeys := 2 + rng.Intn(7)
 	var keys [][]byte
 	for len(keys) < nkeys {
 		k := genUserKey(rng, 1, 3)
+		if nsoff >= 0 && rng.Intn(5) != 0 {
+			k = append([]byte("pq")[:nsoff:nsoff], 0, 0, 0, 0, 0, 0, 0, byte(1+rng.Intn(3)))
+			if rng.Intn(6) != 0 {
+				k = append(k, genUserKey(rng, 1, 2)...) // else: the namespace field ends the key (never banned)
+			}
+		}
 		keys = append(keys, k)
 	}
+	bannedG := map[int]bool{}
 	now := uint64(time.Now().Unix())
 	nextID := 1
 	var open []int
@@ -1625,6 +1745,15 @@ func genMvccSession(rng *rand.Rand, st *Stats) []string {
 	for i := 0; i < nops; i++ {
 		r := rng.Intn(100)
 		switch {
+		case (nsoff >= 0 && rng.Intn(10) == 0) || (nsoff < 0 && rng.Intn(400) == 0):
+			// BanNamespace: from now on Set / Delete / Get of the namespace's keys answer ErrBannedKey
+			// and iterators hide them (ErrNamespaceMode when namespaces are off)
+			ns := pick(rng, 1, 2, 3, 3, 9)
+			if !bannedG[ns] {
+				bannedG[ns] = true
+				ops = append(ops, fmt.Sprintf("ban %d", ns))
+				st.Inc("ban")
+			}
 		case r < 1 && len(keys) >= 3:
 			// drop scenario: everything compacted to a level >= 1, then DropPrefix of the smallest
 			// and the biggest key (a table whose two ends carry different dropped prefixes)
